@@ -51,80 +51,143 @@ theorem dedup_foldl_nodup (acc l : List Text) (h : acc.Nodup) :
 theorem dedup_nodup (l : List Text) : (dedup l).Nodup := by
   unfold dedup; exact dedup_foldl_nodup [] l (by simp)
 
-/-- `textMin` / `textMax` return elements of the list, and bound every element -/
-theorem textLt_irrefl (a : Text) : textLt a a = false := by
-  induction a with
-  | nil => rfl
-  | cons c cs ih => simp [textLt, ih]
-
-theorem textMin_mem_aux (l : List Text) (acc : Option Text) (m : Text)
+/-- `yearMin` / `yearMax` return elements of the list, and bound every element numerically -/
+theorem yearMin_aux (l : List Text) (acc : Option Text) (m : Text)
     (h : l.foldl (fun acc x => match acc with
       | none => some x
-      | some m => if textLt x m then some x else some m) acc = some m) :
-    m ∈ l ∨ acc = some m := by
+      | some m => if yearVal x < yearVal m then some x else some m) acc = some m) :
+    (m ∈ l ∨ acc = some m) ∧ (∀ x ∈ l, yearVal m ≤ yearVal x) ∧ (∀ a, acc = some a → yearVal m ≤ yearVal a) := by
   induction l generalizing acc with
-  | nil => right; simpa using h
+  | nil =>
+    simp only [List.foldl_nil] at h
+    exact ⟨.inr h, by simp, fun a ha => by rw [h] at ha; cases ha; exact Nat.le_refl _⟩
   | cons x xs ih =>
     simp only [List.foldl_cons] at h
-    rcases ih _ h with h' | h'
-    · exact .inl (List.mem_cons_of_mem _ h')
-    · cases acc with
-      | none => simp at h'; exact .inl (by simp [h'])
-      | some a =>
-        simp only at h'
-        split at h'
-        · simp at h'; exact .inl (by simp [h'])
-        · exact .inr h'
+    obtain ⟨h1, h2, h3⟩ := ih _ h
+    cases acc with
+    | none =>
+      simp only at h1 h3
+      have hx : yearVal m ≤ yearVal x := h3 x rfl
+      refine ⟨.inl ?_, ?_, by simp⟩
+      · rcases h1 with h1 | h1
+        · exact List.mem_cons_of_mem _ h1
+        · cases h1; exact List.mem_cons_self
+      · intro y hy
+        rcases List.mem_cons.mp hy with rfl | hy
+        · exact hx
+        · exact h2 y hy
+    | some a =>
+      simp only at h1 h3
+      by_cases hlt : yearVal x < yearVal a
+      · simp only [hlt, if_true] at h1 h3
+        have hx : yearVal m ≤ yearVal x := h3 x rfl
+        refine ⟨?_, ?_, ?_⟩
+        · rcases h1 with h1 | h1
+          · exact .inl (List.mem_cons_of_mem _ h1)
+          · cases h1; exact .inl List.mem_cons_self
+        · intro y hy
+          rcases List.mem_cons.mp hy with rfl | hy
+          · exact hx
+          · exact h2 y hy
+        · intro b hb; cases hb; omega
+      · simp only [hlt, if_false] at h1 h3
+        have ha : yearVal m ≤ yearVal a := h3 a rfl
+        refine ⟨?_, ?_, ?_⟩
+        · rcases h1 with h1 | h1
+          · exact .inl (List.mem_cons_of_mem _ h1)
+          · exact .inr h1
+        · intro y hy
+          rcases List.mem_cons.mp hy with rfl | hy
+          · omega
+          · exact h2 y hy
+        · intro b hb; cases hb; exact ha
 
-theorem textMin_mem {l : List Text} {m : Text} (h : textMin l = some m) : m ∈ l := by
-  rcases textMin_mem_aux l none m h with h' | h'
+theorem yearMin_mem {l : List Text} {m : Text} (h : yearMin l = some m) : m ∈ l := by
+  rcases (yearMin_aux l none m h).1 with h' | h'
   · exact h'
   · cases h'
 
-theorem textMax_mem_aux (l : List Text) (acc : Option Text) (m : Text)
+theorem yearMin_le {l : List Text} {m : Text} (h : yearMin l = some m) : ∀ x ∈ l, yearVal m ≤ yearVal x :=
+  (yearMin_aux l none m h).2.1
+
+theorem yearMax_aux (l : List Text) (acc : Option Text) (m : Text)
     (h : l.foldl (fun acc x => match acc with
       | none => some x
-      | some m => if textLt m x then some x else some m) acc = some m) :
-    m ∈ l ∨ acc = some m := by
+      | some m => if yearVal m < yearVal x then some x else some m) acc = some m) :
+    (m ∈ l ∨ acc = some m) ∧ (∀ x ∈ l, yearVal x ≤ yearVal m) ∧ (∀ a, acc = some a → yearVal a ≤ yearVal m) := by
   induction l generalizing acc with
-  | nil => right; simpa using h
+  | nil =>
+    simp only [List.foldl_nil] at h
+    exact ⟨.inr h, by simp, fun a ha => by rw [h] at ha; cases ha; exact Nat.le_refl _⟩
   | cons x xs ih =>
     simp only [List.foldl_cons] at h
-    rcases ih _ h with h' | h'
-    · exact .inl (List.mem_cons_of_mem _ h')
-    · cases acc with
-      | none => simp at h'; exact .inl (by simp [h'])
-      | some a =>
-        simp only at h'
-        split at h'
-        · simp at h'; exact .inl (by simp [h'])
-        · exact .inr h'
+    obtain ⟨h1, h2, h3⟩ := ih _ h
+    cases acc with
+    | none =>
+      simp only at h1 h3
+      have hx : yearVal x ≤ yearVal m := h3 x rfl
+      refine ⟨.inl ?_, ?_, by simp⟩
+      · rcases h1 with h1 | h1
+        · exact List.mem_cons_of_mem _ h1
+        · cases h1; exact List.mem_cons_self
+      · intro y hy
+        rcases List.mem_cons.mp hy with rfl | hy
+        · exact hx
+        · exact h2 y hy
+    | some a =>
+      simp only at h1 h3
+      by_cases hlt : yearVal a < yearVal x
+      · simp only [hlt, if_true] at h1 h3
+        have hx : yearVal x ≤ yearVal m := h3 x rfl
+        refine ⟨?_, ?_, ?_⟩
+        · rcases h1 with h1 | h1
+          · exact .inl (List.mem_cons_of_mem _ h1)
+          · cases h1; exact .inl List.mem_cons_self
+        · intro y hy
+          rcases List.mem_cons.mp hy with rfl | hy
+          · exact hx
+          · exact h2 y hy
+        · intro b hb; cases hb; omega
+      · simp only [hlt, if_false] at h1 h3
+        have ha : yearVal a ≤ yearVal m := h3 a rfl
+        refine ⟨?_, ?_, ?_⟩
+        · rcases h1 with h1 | h1
+          · exact .inl (List.mem_cons_of_mem _ h1)
+          · exact .inr h1
+        · intro y hy
+          rcases List.mem_cons.mp hy with rfl | hy
+          · omega
+          · exact h2 y hy
+        · intro b hb; cases hb; exact ha
 
-theorem textMax_mem {l : List Text} {m : Text} (h : textMax l = some m) : m ∈ l := by
-  rcases textMax_mem_aux l none m h with h' | h'
+theorem yearMax_mem {l : List Text} {m : Text} (h : yearMax l = some m) : m ∈ l := by
+  rcases (yearMax_aux l none m h).1 with h' | h'
   · exact h'
   · cases h'
 
-theorem textMin_isSome {l : List Text} (h : l ≠ []) : (textMin l).isSome = true := by
+theorem yearMax_ge {l : List Text} {m : Text} (h : yearMax l = some m) : ∀ x ∈ l, yearVal x ≤ yearVal m :=
+  (yearMax_aux l none m h).2.1
+
+theorem yearMin_isSome {l : List Text} (h : l ≠ []) : (yearMin l).isSome = true := by
   obtain ⟨x, xs, rfl⟩ := List.exists_cons_of_ne_nil h
-  unfold textMin
+  unfold yearMin
   simp only [List.foldl_cons]
   have : ∀ (ys : List Text) (a : Text), ((ys.foldl (fun acc x => match acc with
       | none => some x
-      | some m => if textLt x m then some x else some m) (some a))).isSome = true := by
+      | some m => if yearVal x < yearVal m then some x else some m) (some a))).isSome = true := by
     intro ys
     induction ys with
     | nil => intro a; rfl
     | cons y ys ih => intro a; simp only [List.foldl_cons]; split <;> exact ih _
   exact this xs x
 
-theorem textMax_isSome {l : List Text} (h : l ≠ []) : (textMax l).isSome = true := by
+theorem yearMax_isSome {l : List Text} (h : l ≠ []) : (yearMax l).isSome = true := by
   obtain ⟨x, xs, rfl⟩ := List.exists_cons_of_ne_nil h
-  unfold textMax
+  unfold yearMax
   simp only [List.foldl_cons]
   have : ∀ (ys : List Text) (a : Text), ((ys.foldl (fun acc x => match acc with
       | none => some x
-      | some m => if textLt m x then some x else some m) (some a))).isSome = true := by
+      | some m => if yearVal m < yearVal x then some x else some m) (some a))).isSome = true := by
     intro ys
     induction ys with
     | nil => intro a; rfl
